@@ -92,6 +92,10 @@ func main() {
 		} else {
 			writeJSON(*out, EventsMode(*seed, *n, *tier, *driver, *keep))
 		}
+	case "crash":
+		writeJSON(*out, CrashMode(*profile, *seed, *n, *tier, *driver, *keep))
+	case "snapshot":
+		writeJSON(*out, SnapshotMode(*profile, *seed, *n, *tier, *keep))
 	case "campaign":
 		res := Campaign(*profile, *seed, *n, *tier, *driver, *keep, *par)
 		writeJSON(*out, res)
